@@ -41,6 +41,7 @@ func (sess *UserSession) Select(name string, options *imap.SelectOptions) (*imap
 	mbox.mutex.Lock()
 	defer mbox.mutex.Unlock()
 	sess.mailbox = mbox.NewView()
+	sess.mailbox.readOnly = options != nil && options.ReadOnly
 	return mbox.selectDataLocked(), nil
 }
 
@@ -87,6 +88,10 @@ func (sess *UserSession) Copy(numSet imap.NumSet, destName string) (*imap.CopyDa
 }
 
 func (sess *UserSession) Move(w *imapserver.MoveWriter, numSet imap.NumSet, destName string) error {
+	if sess.mailbox != nil && sess.mailbox.readOnly {
+		return errReadOnly()
+	}
+
 	dest, err := sess.user.mailbox(destName)
 	if err != nil {
 		return &imap.Error{
